@@ -154,11 +154,10 @@ def r3_counter_sites(ctx):
                 continue
             n += 1
             helper_of = None
-            if fi.qual not in covered and fi.name.startswith("_"):
-                from .common import callers_of
-                cs = {c[0].qual for c in callers_of(ctx.repo, fi.qual)}
-                if cs and cs <= covered:
-                    helper_of = sorted(cs)
+            if fi.qual not in covered:
+                from .common import helper_of as _helper_of
+                if _helper_of(ctx.repo, fi.qual, covered):
+                    helper_of = "a covered function"
             if fi.qual in covered or helper_of:
                 ctx.ok("C03.R3", loc(fi, node), f"counter update {attr} {det} in a function with a pairing rule" + (f" (private helper of {helper_of})" if helper_of else ""))
             else:
